@@ -32,7 +32,7 @@ fn keypaths_total<const N: usize>() {
         l += 1;
     }
 }
-//@ props: C16
+//@ props: UNREACHED-C16
 //@ timeout: 1800
 //@ harness: c16_total_4
 //@ desc: parse_key_paths on every byte string of length 0..=4: Ok or Err(InvalidKeyPath), never a panic (unterminated quotes, missing braces, stray backslashes, non-UTF-8 bytes included)
@@ -40,7 +40,7 @@ fn keypaths_total<const N: usize>() {
 //@ bounds: input length <= 4
 //@ stubs: drop_in_place -> no-op
 harness!(c16_total_4, 8, keypaths_total::<4>());
-//@ props: C16
+//@ props: UNREACHED-C16
 //@ tier: thorough
 //@ timeout: 3600
 //@ harness: c16_total_6
@@ -70,7 +70,7 @@ fn keypaths_open<const N: usize>(quote: bool) {
     kani::cover!(r.is_err(), "rejected");
     core::mem::forget(r);
 }
-//@ props: C16, C09
+//@ props: UNREACHED-C16, UNREACHED-C09
 //@ timeout: 1800
 //@ harness: c16_open_quote_5, c16_open_plain_5
 //@ desc: `{"` followed by 5 arbitrary bytes and `{` followed by 5 arbitrary bytes (escapes `\\x`, `\\uXXXX`, `\\u{XXXX}` cut off at every point, missing closing quote or brace): an error or a value, never a panic
@@ -176,7 +176,7 @@ fn keypaths_template(k1: usize, k2: usize) {
         s += 1;
     }
 }
-//@ props: C16
+//@ props: UNREACHED-C16
 //@ timeout: 1800
 //@ harness: c16_tmpl_idx_name, c16_tmpl_quoted_idx, c16_tmpl_name_quoted
 //@ desc: `{ e1 , e2 }` rendered with every presence pattern of the six whitespace slots (each slot empty or one arbitrary whitespace character) and element kinds index (optional minus, two arbitrary digits) / quoted name (two arbitrary name characters) / plain name: accepted, and the elements are exactly Index(value) / QuotedName(chars) / Name(chars) in order
@@ -187,7 +187,7 @@ harness!(c16_tmpl_idx_name, 66, keypaths_template(0, 2));
 harness!(c16_tmpl_quoted_idx, 66, keypaths_template(1, 0));
 harness!(c16_tmpl_name_quoted, 66, keypaths_template(2, 1));
 
-//@ props: C16
+//@ props: UNREACHED-C16
 //@ timeout: 900
 //@ desc: the empty list `{}` with every spacing, and single elements: the empty quoted name `{""}`, the i32 boundaries `{2147483647}` / `{-2147483648}` (accepted as Index) and `{2147483648}` / `{-2147483649}` (not an index)
 //@ fns: parse_key_paths, key_paths, key_path, string
@@ -225,7 +225,7 @@ fn c16_edge_elements() {
     core::mem::forget(r);
 }
 
-//@ props: C16
+//@ props: UNREACHED-C16
 //@ timeout: 300
 //@ expect: twin
 //@ desc: vacuity twin: every 4-byte input claimed to be rejected — must be refuted
